@@ -49,6 +49,7 @@ def check_C14(ctx):
     cs = CaseSet()
     eval_texts(ctx, cs, ctx.n(300, 6000), 4, ctx.n(300, 6000), ctx.n(150, 3000))
     fam_leaf_exh(cs, ctx.rng, stride=ctx.n(17, 2))
+    fam_other_typed(cs, ctx.rng)
     # objects holding values of every other Go type (YAML-style maps, map[string]string, named maps,
     # slices, Stringers, ...) at the top level and nested, with paths that stop at them and paths that go through them
     for hv in HOSTILE:
@@ -587,6 +588,7 @@ def check_C16(ctx):
     for (t, o) in CORPUS:
         cs.eval(t, o, 'corpus')
     fam_leaf_exh(cs, ctx.rng, stride=ctx.n(2, 1))
+    fam_other_typed(cs, ctx.rng)
     fam_pr_exh(cs, ctx.rng)
     fail_compounds(ctx, cs, ctx.n(1500, 40000), fam='shape-reached')
     for path in (['n', 'x'], ['n', 'y', 'z']):
@@ -1559,6 +1561,7 @@ def check_C13(ctx):
     eval_texts(ctx, cs, ctx.n(400, 10000), 2, ctx.n(200, 5000), ctx.n(50, 1000), objs_per=2)
     fam_leaf_exh(cs, ctx.rng, stride=ctx.n(7, 1))
     fail_compounds(ctx, cs, ctx.n(500, 10000))
+    fam_other_typed(cs, ctx.rng)
     for h in HOSTILE:
         for t in ['x eq "a"', 'x.y eq 1', 'x in ["a"]', 'x eq 1', 'n.x pr and x co "a"', 'x pr or x.y.z eq 1', 'x.name eq "bob"', 'x.k1 eq 1 or n.x.k1 pr', 'x in [1, 7, 14]']:
             cs.eval(t, obj({'x': h, 'n': {'x': h}}), 'hostile')
